@@ -6,6 +6,8 @@ import (
 	"os"
 
 	"verifharness/fw"
+	_ "verifharness/props/c07"
+	_ "verifharness/props/c08"
 	_ "verifharness/props/c09"
 	_ "verifharness/props/c16"
 	_ "verifharness/props/c17"
